@@ -113,6 +113,8 @@ type MWCase struct {
 	// Cache: node_cache_entries of the writers' tables. Used with entries_per_node=4096 only
 	// (single-node trees): on multi-node trees the node cache and rollbacks run into K4.
 	Cache int `json:"cache,omitempty"`
+	// NoSteerK8: witness of known finding K8 only
+	NoSteerK8 bool `json:"no_steer_k8,omitempty"`
 }
 
 type mwGenCfg struct {
@@ -299,25 +301,26 @@ type mwWriter struct {
 }
 
 type mwRun struct {
-	c            MWCase
-	o            *Obs
-	bucket       string
-	store        *fakes3.Store
-	prefix       string
-	ws           []*mwWriter
-	pub          map[string]MSet // version name -> operations it contains
-	all          MSet            // union of everything committed
-	issued       []Stmt
-	effective    []bool // per issued statement: did it add an operation when first run
-	writersOfKey map[string]map[int]bool
-	spec         TableSpec
-	snaps        []verSnap
-	snapAt       map[string]int
-	farVacuumed  bool
-	interrupted  map[string]bool // superseded versions present during a vacuum that ran under a fault
-	opsAdded     int
-	ro           *roState
-	closers      []func()
+	c              MWCase
+	o              *Obs
+	bucket         string
+	store          *fakes3.Store
+	prefix         string
+	ws             []*mwWriter
+	pub            map[string]MSet // version name -> operations it contains
+	all            MSet            // union of everything committed
+	issued         []Stmt
+	effective      []bool // per issued statement: did it add an operation when first run
+	writersOfKey   map[string]map[int]bool
+	spec           TableSpec
+	snaps          []verSnap
+	snapAt         map[string]int
+	farVacuumed    bool
+	interrupted    map[string]bool // superseded versions present during a vacuum that ran under a fault
+	hadRetireFault bool
+	opsAdded       int
+	ro             *roState
+	closers        []func()
 }
 
 const mwCols = "k primary key, a, b, c"
@@ -636,6 +639,7 @@ func (r *mwRun) step1(i int, s MWStep, where string) error {
 	switch s.Op {
 	case "stmt":
 		if s.RetireFault {
+			r.hadRetireFault = true
 			client := fmt.Sprintf("verif://w%d", s.W)
 			r.store.Intercept = func(q *fakes3.Req) error {
 				if q.Client == client && ((q.Op == "PUT" && strings.Contains(q.Key, "/root/merged/")) || (q.Op == "DELETE" && strings.Contains(q.Key, "/root/current/"))) {
